@@ -548,6 +548,19 @@ func noWallClock(c *Ctx, rule string) {
 			c.ok(rule, shortFn(site.Caller), "call "+site.Callee, c.P.InstrPos(site.Instr), "only on the branch where the injected clock is nil, for which the clock itself reads the wall clock")
 			return
 		}
+		// a stopwatch: a wall-clock reading whose only use is to be subtracted from a later one (time.Since / Sub), the
+		// duration going wherever it goes — no instant of a message is ever compared with it
+		stopwatchProg = c.P
+		if ci, ok := site.Instr.(*ssa.Call); ok {
+			if site.Callee == "time.Now" && onlyStopwatchUses(ci, 0, map[ssa.Value]bool{}) {
+				c.ok(rule, shortFn(site.Caller), "call "+site.Callee, c.P.InstrPos(site.Instr), "stopwatch start: the reading only flows into time.Since / Sub")
+				return
+			}
+			if site.Callee == "time.Since" && len(ci.Call.Args) == 1 && fromStopwatchStart(c.P, ci.Call.Args[0], 0, map[ssa.Value]bool{}) {
+				c.ok(rule, shortFn(site.Caller), "call "+site.Callee, c.P.InstrPos(site.Instr), "stopwatch stop: the operand is a wall-clock reading taken earlier by the library itself")
+				return
+			}
+		}
 		c.bad(rule, shortFn(site.Caller), "call "+site.Callee, c.P.InstrPos(site.Instr), "library code reads the wall clock ("+site.Callee+") instead of the injected SP clock")
 	})
 	if n == 0 {
@@ -1139,4 +1152,249 @@ func underNilClock(in ssa.Instruction) bool {
 		}
 	}
 	return false
+}
+
+
+// onlyStopwatchUses: every use of the time value v is an operand of time.Since / (time.Time).Sub, or a move (store into
+// a local variable, capture by a closure, phi) whose every read is again such a use.
+var stopwatchProg *Prog
+
+func onlyStopwatchUses(v ssa.Value, depth int, seen map[ssa.Value]bool) bool {
+	if depth > 6 {
+		return false
+	}
+	if seen[v] {
+		return true
+	}
+	seen[v] = true
+	refs := v.Referrers()
+	if refs == nil {
+		return false
+	}
+	for _, r := range *refs {
+		switch x := r.(type) {
+		case *ssa.DebugRef:
+		case *ssa.Call:
+			n, _ := calleeName(x.Common())
+			switch n {
+			case "time.Since":
+			case "(time.Time).Sub":
+				// a difference of two wall-clock readings — not "now minus an instant of the message"
+				for _, a := range x.Common().Args {
+					if a != v && !fromStopwatchStart(stopwatchProg, a, 0, map[ssa.Value]bool{}) {
+						return false
+					}
+				}
+			default:
+				return false
+			}
+		case *ssa.Defer:
+			return false
+		case *ssa.Phi:
+			if !onlyStopwatchUses(x, depth+1, seen) {
+				return false
+			}
+		case *ssa.Store:
+			if x.Val != v {
+				return false
+			}
+			// into a local variable (possibly captured by reference): all loads of it must be stopwatch uses
+			al, ok := x.Addr.(*ssa.Alloc)
+			if !ok {
+				return false
+			}
+			if !cellOnlyStopwatch(al, depth+1, seen) {
+				return false
+			}
+		case *ssa.MakeClosure:
+			// captured by value: the corresponding free variable of the closure
+			fn, _ := x.Fn.(*ssa.Function)
+			if fn == nil {
+				return false
+			}
+			for i, b := range x.Bindings {
+				if b == v && i < len(fn.FreeVars) {
+					if !onlyStopwatchUses(fn.FreeVars[i], depth+1, seen) {
+						return false
+					}
+				}
+			}
+		default:
+			return false
+		}
+	}
+	return true
+}
+
+// cellOnlyStopwatch: the variable cell (an Alloc, or a free variable that is a pointer to one) is only stored to and
+// loaded for stopwatch uses.
+func cellOnlyStopwatch(cell ssa.Value, depth int, seen map[ssa.Value]bool) bool {
+	if depth > 6 {
+		return false
+	}
+	if seen[cell] {
+		return true
+	}
+	seen[cell] = true
+	refs := cell.Referrers()
+	if refs == nil {
+		return false
+	}
+	for _, r := range *refs {
+		switch x := r.(type) {
+		case *ssa.DebugRef:
+		case *ssa.Store:
+			if x.Addr != cell {
+				return false
+			}
+		case *ssa.UnOp:
+			if x.Op != token.MUL || !onlyStopwatchUses(x, depth+1, seen) {
+				return false
+			}
+		case *ssa.MakeClosure:
+			fn, _ := x.Fn.(*ssa.Function)
+			if fn == nil {
+				return false
+			}
+			for i, b := range x.Bindings {
+				if b == cell && i < len(fn.FreeVars) {
+					if !cellOnlyStopwatch(fn.FreeVars[i], depth+1, seen) {
+						return false
+					}
+				}
+			}
+		default:
+			return false
+		}
+	}
+	return true
+}
+
+// fromStopwatchStart: v is a reading of time.Now() taken by the library (directly, through a local variable, a closure
+// capture, or a parameter that receives only such readings at every call site).
+func fromStopwatchStart(p *Prog, v ssa.Value, depth int, seen map[ssa.Value]bool) bool {
+	if depth > 6 || v == nil {
+		return false
+	}
+	if seen[v] {
+		return true
+	}
+	seen[v] = true
+	switch x := v.(type) {
+	case *ssa.Call:
+		n, _ := calleeName(x.Common())
+		return n == "time.Now"
+	case *ssa.Phi:
+		for _, e := range x.Edges {
+			if !fromStopwatchStart(p, e, depth+1, seen) {
+				return false
+			}
+		}
+		return len(x.Edges) > 0
+	case *ssa.UnOp:
+		if x.Op != token.MUL {
+			return false
+		}
+		return cellFromStopwatch(p, x.X, depth+1, seen)
+	case *ssa.FreeVar:
+		// captured by value
+		return freeVarBindings(x, func(b ssa.Value) bool { return fromStopwatchStart(p, b, depth+1, seen) })
+	case *ssa.Parameter:
+		fn := x.Parent()
+		idx := -1
+		for i, q := range fn.Params {
+			if q == x {
+				idx = i
+			}
+		}
+		cs := p.callerIndex()[fn]
+		if idx < 0 || len(cs) == 0 || isPublicFn(fn) {
+			return false
+		}
+		for cc := range cs {
+			for _, b := range cc.Blocks {
+				for _, in := range b.Instrs {
+					call, ok := in.(ssa.CallInstruction)
+					if !ok || call.Common().StaticCallee() != fn {
+						continue
+					}
+					if idx >= len(call.Common().Args) || !fromStopwatchStart(p, call.Common().Args[idx], depth+1, seen) {
+						return false
+					}
+				}
+			}
+		}
+		return true
+	}
+	return false
+}
+
+func cellFromStopwatch(p *Prog, cell ssa.Value, depth int, seen map[ssa.Value]bool) bool {
+	switch c := cell.(type) {
+	case *ssa.Alloc:
+		n := 0
+		if refs := c.Referrers(); refs != nil {
+			for _, r := range *refs {
+				if st, ok := r.(*ssa.Store); ok && st.Addr == cell {
+					n++
+					if !fromStopwatchStart(p, st.Val, depth+1, seen) {
+						return false
+					}
+				}
+			}
+		}
+		return n > 0
+	case *ssa.FreeVar:
+		return freeVarBindings(c, func(b ssa.Value) bool { return cellFromStopwatch(p, b, depth+1, seen) })
+	case *ssa.FieldAddr:
+		// a field of a local stopwatch struct: every store to that field in the function is a reading
+		if al, ok := c.X.(*ssa.Alloc); ok {
+			n := 0
+			if refs := al.Referrers(); refs != nil {
+				for _, r := range *refs {
+					if fa, ok := r.(*ssa.FieldAddr); ok && fa.Field == c.Field {
+						if frefs := fa.Referrers(); frefs != nil {
+							for _, fr := range *frefs {
+								if st, ok := fr.(*ssa.Store); ok && st.Addr == ssa.Value(fa) {
+									n++
+									if !fromStopwatchStart(p, st.Val, depth+1, seen) {
+										return false
+									}
+								}
+							}
+						}
+					}
+				}
+			}
+			return n > 0
+		}
+	}
+	return false
+}
+
+// freeVarBindings applies ok to what every MakeClosure of the free variable's function binds to it.
+func freeVarBindings(fv *ssa.FreeVar, ok func(ssa.Value) bool) bool {
+	fn := fv.Parent()
+	idx := -1
+	for i, q := range fn.FreeVars {
+		if q == fv {
+			idx = i
+		}
+	}
+	parent := fn.Parent()
+	if idx < 0 || parent == nil {
+		return false
+	}
+	n := 0
+	for _, b := range parent.Blocks {
+		for _, in := range b.Instrs {
+			if mc, isMC := in.(*ssa.MakeClosure); isMC && mc.Fn == ssa.Value(fn) && idx < len(mc.Bindings) {
+				n++
+				if !ok(mc.Bindings[idx]) {
+					return false
+				}
+			}
+		}
+	}
+	return n > 0
 }
